@@ -2,6 +2,7 @@
 from driver.common import Case
 
 ID = "C15"
+NEEDS_BINARY = True
 LEAN_MODULES = ["Gv.Props.C15"]
 REQUIRED_THEOREMS = ["Gv.Props.C15." + n for n in [
     "mask_result", "mask_frame_names_lengths", "mask_cells", "mask_outside_window_unchanged", "mask_ok_iff", "repChar_spec",
@@ -47,7 +48,7 @@ def rows_str(rows):
     return ",".join("%s:%s" % r for r in rows) if rows else "_"
 
 
-def gen(rng, tier):
+def _gen_core(rng, tier):
     N = 400 if tier == "quick" else 4000
     for _ in range(N):
         alpha = rng.choice([0, 1, 1, 3])
@@ -75,3 +76,22 @@ def shrink(c):
         r2 = rows[:i] + rows[i + 1:]
         if r2:
             yield Case(c.op, [a[0], rows_str(r2)] + a[2:])
+
+
+# ---- command-line glue: a multi-alignment Phylip input must be treated as its alignments one by one (`detmulti`) ----
+MULTI_CMDS = [['mask', '-s', '1', '-l', '2'], ['mask', '-s', '0', '-l', '3', '--replace', 'MAJ'], ['mask', '--unique'], ['mask', '--ref-seq', 'ref', '-s', '0', '-l', '2'], ['mask', '--unique', '--ref-seq', 'ref', '--replace', 'MAJ']]
+
+
+def gen(rng, tier):
+    from driver import multigen
+    for c in _gen_core(rng, tier):
+        yield c
+    for _ in range(2 if tier == "quick" else 20):
+        for argv in MULTI_CMDS:
+            yield multigen.multi_case(multigen.alignments(rng), argv, "cli-multi-" + "-".join(argv[:2]))
+
+
+def matches(c):
+    if c.op.startswith("det"):
+        return (c.impl or "").startswith("same")
+    return c.model == c.impl
